@@ -82,6 +82,11 @@ CLAIMED["C15"] = (
     COMMON_TRUST + " Key, DSN, timestamp and protobuf parsers are external (their verdicts appear as call-site results); MirrorSTHStorage.GetMirrorSTH is assumed to honour its documented bound; the per-backend tree-ID rule of ValidateLogMultiConfig is decided only up to the fmt.Sprintf key (string formatting is not modelled: names ending in '-' with negative IDs can collide); metric variables are assumed initialised by setupMetrics; text/binary protobuf decoding itself is not covered.",
 )
 
+CLAIMED["C19"] = (
+    "Deductive proof, per update step, of the witness's acceptance rule: setSTH is called only after parse accepted the candidate (its JSON decoded, its log ID equals the requested one or was absent, and VerifySTHSignature under the key configured for that log returned nil), and then only either as the first STH when the store reported NotFound, or when the held STH re-verified, the candidate is strictly larger and proof.VerifyConsistency over (held size, candidate size, the given proof, held root, candidate root) returned nil; the bytes stored are exactly the verified candidate for that log in the transaction opened for this update and count as stored only if Exec and Commit succeeded. Stale, forked-at-equal-size and inconsistent candidates, unknown logs and unreadable state store nothing and are answered as the statement says (held bytes with FailedPrecondition / NotFound / error); an identical STH is a no-op. Every cosignature is tls.CreateSignature with the witness key and SHA-256 over the TLS encoding of exactly the STH placed next to it. The history clause (never shrinking, each a genuine extension) follows by induction over steps from these per-step postconditions.",
+    COMMON_TRUST + " database/sql is external: transaction isolation (what makes the step atomic under concurrent Update calls) is assumed, as is that a later read returns the last committed bytes; proof.VerifyConsistency is taken as the definition of 'genuine extension'; signature validity is C05's subject; interleavings of concurrent callers are not modelled.",
+)
+
 NOT_YET = "contracts for this property are not yet discharged by the generator in this revision; no other technique is substituted"
 NOT_APPLICABLE = {}
 
